@@ -123,7 +123,17 @@ impl GenerationPass for AvailableValuePass {
             #[cfg(riscv_analysis_verif)]
             crate::verif::tick("available-sweep");
             changed = false;
+            let visited_before = visited.len();
             for node in cfg.iter() {
+                // A node all of whose predecessors come later in program
+                // order has no computed predecessor in the first sweep. That
+                // means "nothing known yet", not "nothing holds": taking the
+                // empty meet as the empty map made such a node and the head
+                // of its loop flip between two states forever. Leave it for
+                // the next sweep, when a predecessor has been computed.
+                if !node.prevs().is_empty() && !node.prevs().iter().any(|x| visited.contains(x)) {
+                    continue;
+                }
                 // in[n] = AND out[p] for all p in prev[n]
                 let in_reg_n = node
                     .prevs()
@@ -224,6 +234,8 @@ impl GenerationPass for AvailableValuePass {
                 // Add node to visited
                 visited.insert(Rc::clone(&node));
             }
+            // Nodes that were left out can be computed once the set grows.
+            changed |= visited.len() != visited_before;
         }
         Ok(())
     }
